@@ -1,12 +1,20 @@
 #!/bin/bash
-# usage: try_seed.sh <patch.diff> <CHECK-ID> [tier]   -- applies a seeded change to /repo, runs the check, reverts
-set -u
+# usage: try_seed.sh <patch.diff> <CHECK-ID> [tier]
+# Applies a seeded change to a dedicated scratch worktree of /repo (so that /repo itself stays clean for
+# development), runs the check against it with its own build directory, and reverts.
 patch=$1; id=$2; tier=${3:-quick}
-cd /repo || exit 2
+SR=/tmp/wt/seedrepo
+if [ ! -d $SR/.git ] && [ ! -f $SR/.git ]; then git -C /repo worktree add --detach $SR HEAD >/dev/null 2>&1 || { echo "cannot create $SR"; exit 4; }; fi
+cd $SR || { echo "no $SR"; exit 4; }
+[ "$(pwd)" = "$SR" ] || exit 4
+git checkout -q --detach "$(git -C /repo rev-parse HEAD)" && git checkout -q -- . || exit 4
 if ! git apply --check "$patch" 2>/dev/null; then echo "SEED $patch: does not apply"; exit 3; fi
-git apply "$patch"
-cd /verif && timeout 3000 ./check "$id" --tier "$tier" > /tmp/seed_out.$$ 2>&1; rc=$?
-git -C /repo checkout -- . 
+git apply "$patch" || exit 3
+cp /verif/evidence/$id.json /tmp/seed_ev.$$ 2>/dev/null
+( cd /verif && VERIF_REPO=$SR VERIF_BUILD=/tmp/wt/seedbuild timeout 3000 ./check "$id" --tier "$tier" > /tmp/seed_out.$$ 2>&1 ); rc=$?
+git -C $SR checkout -q -- .
+# the evidence file written by this run describes the mutated tree: put the previous one back
+[ -f /tmp/seed_ev.$$ ] && mv /tmp/seed_ev.$$ /verif/evidence/$id.json
 nviol=$(grep -c "^VIOLATION" /tmp/seed_out.$$)
 echo "SEED $patch check=$id rc=$rc violations=$nviol"
 grep -m3 "what:" /tmp/seed_out.$$ | cut -c1-300
